@@ -421,6 +421,9 @@ void make_inputs(const ProgMeta &meta, uint64_t dataseed, int nreq, RunData &d, 
   if (meta.is_2d) m = meta.constant_m > 0 ? meta.constant_m : 1 + (int)r.below(4);
   d.n = n;
   d.m = m;
+  // nreq == -1: an empty call (n = 0), legal for every program without a fixed or minimum length; the arrays are
+  // laid out as for n elements, none of which may be touched
+  bool empty_call = nreq == -1 && meta.constant_n == 0 && meta.n_minimum == 0 && meta.n_multiple <= 1;
   for (int i = 0; i < ORC_N_VARIABLES; i++) {
     d.arr[i].clear();
     d.len[i] = 0;
@@ -484,6 +487,7 @@ void make_inputs(const ProgMeta &meta, uint64_t dataseed, int nreq, RunData &d, 
   }
   d.exstyle = (int)r.below(5) < 2 ? 1 : (int)r.below(3) == 0 ? 2 : 0;
   d.exgarbage = r.next();
+  if (empty_call) d.n = 0;
 }
 
 static void run_with_row(OrcProgram *prog, OrcCode *code, const ProgMeta &meta, RunMode mode, RunData &d, int row);
